@@ -28,9 +28,11 @@ Definition event_ok (g0 : mg nat) (ev : event) : Prop :=
 
 Section CgSem5.
   Variable g0 : mg nat.
+  Context {D : Type} {eqD : EqB D}.
   Variable U : Type.
-  Variable f : nat -> (nat -> bool) -> U -> bool.
-  Variable rho : nat -> bool.
+  Variable f : nat -> (nat -> D) -> U -> D.
+  Variable rho : nat * bool -> D.
+  Hypothesis rho_distinct : forall n, rho (n, false) <> rho (n, true).
   Hypothesis f_local : local g0 U f.
   Variable order : list nat.
   Hypothesis order_ok : is_topo g0 order = true.
@@ -51,7 +53,7 @@ Section CgSem5.
               end.
   Proof.
     intros Hc Hd Hk Hn Hv Hm u.
-    pose proof (cg_truth g0 U f rho f_local order order_ok g0_wf g0_noloop u worlds Hc Hd ev0 Hk Hn Hv cf r Hm) as H.
+    pose proof (cg_truth g0 U f rho rho_distinct f_local order order_ok g0_wf g0_noloop u worlds Hc Hd ev0 Hk Hn Hv cf r Hm) as H.
     destruct r as [ev'|].
     - apply bool_iff. rewrite !(event_true_holds U f rho order u). exact H.
     - destruct (event_true U f rho order ev0 u) eqn:E; [|reflexivity]. exfalso. apply H. exact (proj1 (event_true_holds U f rho order u ev0) E).
